@@ -189,11 +189,15 @@ class FlowA:
             return "bad", "unreaped", "%d terminated stage process(es) not waited for by the driver" % obs["unreaped"]
         if extra:
             return "bad", "files", "unexpected files %s" % extra
+        if out in g["required"]:
+            if out not in g["outcomes"]:       # a deviation the model still lists is not exhibited (repaired?)
+                self.stale = getattr(self, "stale", 0) + 1
+            return "ok", None, None
         if out not in g["outcomes"]:
             exp = sorted(g["outcomes"])
             field = "exit" if out[0] not in {o[0] for o in exp} else ("link" if out[2] not in {o[2] for o in exp} else "files")
             return "bad", field, "observed %s, model allows %s" % (out, exp)
-        if out not in g["required"]:
+        if True:
             dev = "LinkSpawnLeak" if cfg["lend"] == "spawn_fails" else "TempLeak"
             return "known", dev, "observed %s, required %s" % (out, sorted(g["required"]))
         return "ok", None, None
@@ -244,6 +248,10 @@ class FlowA:
                 ctx.sample({"cfg": cfg, "argv": tasks[obs["tag"]]["argv"], "finished_before_failure": list(early),
                             "observed (exit, files, link started)": observed_outcome(cfg, inputs, obs)[0]})
         ctx.cov["flowA_runs"] = self.nrun
+        if getattr(self, "stale", 0):
+            ctx.cov["deviations_predicted_but_not_observed"] = self.stale
+            print("NOTE C18: %d runs left no temporary where DriverProc.tla's deviations predict a leak (repaired? remove them from Devs "
+                  "in MC_DriverProc_*.cfg / MC_Trace_DriverProc.cfg)" % self.stale, flush=True)
         ctx.cov["flowA_unrealisable_classes"] = skipped
         return self.nrun
 
@@ -309,7 +317,7 @@ def trace_events(path, inputs):
     started = False
     stage_of, cur, last_stage = {}, 0, 99
     failed_spawn = set()
-    wend = None
+    wend, newr, rends = None, None, {}
     ntmp, tmpname = 0, {}
     outnames = {}
     for k, (n, _r) in enumerate(inputs):
@@ -330,6 +338,7 @@ def trace_events(path, inputs):
         elif name in ("pipe2", "pipe") and ret.startswith("0"):
             fds = re.findall(r"\d+", args.split("]")[0])
             wend = int(fds[1])
+            newr = int(fds[0])
         elif name in ("clone3", "clone", "vfork", "fork") and not ret.startswith("-1"):
             child = int(ret.split()[0])
             ex = execs.get(child, [])
@@ -355,13 +364,21 @@ def trace_events(path, inputs):
             last_stage = s
             if ok:
                 stage_of[child] = s
+                if newr is not None:
+                    rends = {fd: v for fd, v in rends.items() if v[0] == cur}
+                    rends[newr] = (cur, s)
             else:
                 failed_spawn.add(child)
                 wend = None
+            newr = None
             ev.append({"e": "Spawn", "stage": s, "ok": ok})
         elif name == "close" and wend is not None and args.strip("() ") == str(wend) and ret.startswith("0"):
             ev.append({"e": "CloseW"})
             wend = None
+        elif name == "close" and args.strip("() ").isdigit() and int(args.strip("() ")) in rends and ret.startswith("0"):
+            k, s = rends.pop(int(args.strip("() ")))
+            if k == cur:
+                ev.append({"e": "CloseR", "pipe": s})
         elif name == "wait4" and not ret.startswith("-1"):
             child = int(ret.split()[0])
             if child in failed_spawn:
